@@ -9,7 +9,8 @@ open AxVerif
 def parseDefects (flags : List String) : Defects :=
   { clearZeroesCapacity := flags.contains "clearZeroesCapacity",
     cursorForwardOnly := flags.contains "cursorForwardOnly",
-    openIgnoresCacheSize := flags.contains "openIgnoresCacheSize" }
+    openIgnoresCacheSize := flags.contains "openIgnoresCacheSize",
+    cacheSizeWraps := flags.contains "cacheSizeWraps" }
 
 def nat? (s : String) : Option Nat := if s.length ≤ 19 then s.toNat? else none
 
@@ -77,7 +78,7 @@ def step (D : Defects) (line : String) : String :=
   | "pgr" :: cap :: ps :: "|" :: rest =>
     match nat? cap, nat? ps, allSome parsePOp (splitOps rest) with
     | some cap, some ps, some ops =>
-      if pageSizeOk ps && cap < 65536 then
+      if pageSizeOk ps && cap ≤ 200000 then
         " ; ".intercalate (((Pager.init cap).run D ops).2.map Out.show)
       else "bad-op"
     | _, _, _ => "bad-op"
@@ -85,7 +86,7 @@ def step (D : Defects) (line : String) : String :=
     match nat? a, nat? b, nat? c, nat? d, nat? e with
     | some a, some b, some c, some d, some e =>
       let n := Config.Config.new a b c d e
-      let hdr := if b ≤ 1000000 then " hdr=" ++ Config.showHeader (Config.toHeader n) else ""
+      let hdr := if b ≤ 1000000 then " hdr=" ++ Config.showHeader (Config.toHeader D n) else ""
       s!"new={Config.showConfig n} bld={Config.showConfig (Config.Config.builder a b c d e)}{hdr}"
     | _, _, _, _, _ => "bad-op"
   | "grid" :: _ => "same"
